@@ -3,6 +3,7 @@
 import Driver.Loop
 import Model.DFT
 import Model.Fit
+import Model.Slim
 
 open Lean Model
 open Model.Impl.DFT
@@ -66,7 +67,14 @@ def transformer : Op := fun j => do
   | vj =>
     let vis ← getList getCxF vj
     if vis.length ≠ uv.length then throw "shape_mismatch"
-    out := out ++ [("image", floatsToJson (imageFrom Float.cos Float.sin piF grid uv vis))]
+    let img := imageFrom Float.cos Float.sin piF grid uv vis
+    out := out ++ [("image", floatsToJson img)]
+    -- TransformerDFT.image_from scatters the slim image to native with array_2d_native_from (C01)
+    match fieldD j "mask" Json.null with
+    | Json.null => pure ()
+    | mj =>
+      let m ← getMask mj
+      out := out ++ [("image_native", floatsToJson (Impl.nativeFrom m img 0))]
   match fieldD j "M" Json.null with
   | Json.null => pure ()
   | mj =>
@@ -100,8 +108,8 @@ def normalEq : Op := fun j => do
   let T := hstack uv.length Ts
   let nCols := Impl.Fit.totalParams lin
   let noReg := Impl.Fit.noRegularizationIndexList lin
-  let D := tabulate nCols (dataVector T uv.length nCols vis noise)
-  let F := tabulate2 nCols nCols (curvatureMatrix T uv.length noise noReg diag)
+  let D := (dataVector T uv.length nCols vis noise).toList
+  let F := (curvatureMatrix T uv.length nCols noise noReg diag).toLists
   pure (obj [("operated_mapping_matrix", listToJson (listToJson cxToJson) T),
              ("data_vector", floatsToJson D),
              ("curvature_matrix", listToJson floatsToJson F),
